@@ -31,11 +31,11 @@ RULE = (
     "only in punctuation}. distinct = by template text; non-trivial = the template has at least one def or "
     "non-ASCII character and all paths produced output."
 )
-RULE += ' added since: legacy and wide source encodings (utf-16/32) on file paths, twin templates surviving garbage collection of the other, mako-render failures, sibling URIs compared by full output / list_defs / get_def(..).render/.source/.code, templates printing their own local.uri and self.uri. defs of inheriting templates rendered alone through get_def() and inside a full render, on four lookup paths.'
+RULE += ' added since: legacy and wide source encodings (utf-16/32) on file paths, twin templates surviving garbage collection of the other, mako-render failures, sibling URIs compared by full output / list_defs / get_def(..).render/.source/.code, templates printing their own local.uri and self.uri. defs of inheriting templates rendered alone through get_def() and inside a full render, on four lookup paths. preprocessor= (list and single callable) on the string, file, module-directory and lookup paths against the preprocessed text compiled directly; lexer_cls= subclass used exactly once.'
 ASSUMPTIONS = ["mako-render is driven without --output-encoding (it crashes with that option, outside the statement)",
                "context values are strings so that the command line can pass them"]
 MIN_NONTRIVIAL = 100
-REQUIRED_COUNTERS = ["templates", "paths_compared", "hash_seed_children", "cmdline_runs", "get_def_compared", "module_template_renders", "lookup_variants", "source_checks", "inheriting_get_def_compared"]
+REQUIRED_COUNTERS = ["templates", "paths_compared", "hash_seed_children", "cmdline_runs", "get_def_compared", "module_template_renders", "lookup_variants", "source_checks", "inheriting_get_def_compared", "preprocessor_paths_compared"]
 SHARDS = {"quick": 16, "thorough": 32}
 
 _st = {}
@@ -48,7 +48,9 @@ def setup_worker():
     from mako import cmd, compat, runtime
     from mako.lookup import TemplateLookup
     from mako.template import ModuleTemplate, Template
+    from mako.lexer import Lexer
 
+    _st["Lexer"] = Lexer
     c01.setup_worker()
     c05.setup_worker()
     _st.update(Template=Template, ModuleTemplate=ModuleTemplate, TemplateLookup=TemplateLookup, runtime=runtime, cmd=cmd, compat=compat,
@@ -263,6 +265,37 @@ def run_template(kind, text, defs, d, res, items, enc="utf-8", input_encoding=No
             fid = wide_module_file(enc, name, o)
             res.violate("paths-differ-" + name, "template %r (file encoding %s)\npath string gives %r\npath %s gives %r" % (text, enc, outs.get("string"), name, o),
                         finding=fid, witness="template file stored as UTF-16/UTF-32 (input_encoding names it), module_directory set: SyntaxError on import of the module file" if fid else None, replay_case=rc)
+    # preprocessor= and lexer_cls=: the text the template is compiled from is preprocessor(text) on every path (one
+    # callable or a list applied in order), and a Lexer subclass handed in is the one that parses it
+    if not input_encoding and enc == "utf-8" and ref[0] == "out":
+        pp1 = lambda t_: t_ + "\n<PP1>"  # noqa: E731
+        pp2 = lambda t_: t_ + "<PP2>"  # noqa: E731
+        used = []
+
+        class CountingLexer(_st["Lexer"]):
+            def parse(self):
+                used.append(1)
+                return super().parse()
+
+        ref2 = norm_exc(outcome(lambda: T(text + "\n<PP1><PP2>").render_unicode(**CTX)))
+        md2 = os.path.join(d, "mods-pp")
+        pouts = {
+            "pp-string": outcome(lambda: T(text, preprocessor=[pp1, pp2]).render_unicode(**CTX)),
+            "pp-file": outcome(lambda: T(filename=fn, preprocessor=[pp1, pp2]).render_unicode(**CTX)),
+            "pp-module-first": outcome(lambda: T(filename=fn, module_directory=md2, preprocessor=[pp1, pp2]).render_unicode(**CTX)),
+            "pp-module-reload": outcome(lambda: T(filename=fn, module_directory=md2, preprocessor=[pp1, pp2]).render_unicode(**CTX)),
+            "pp-lookup": outcome(lambda: _st["TemplateLookup"](directories=[d], preprocessor=[pp1, pp2]).get_template("t.html").render_unicode(**CTX)),
+            "pp-single-callable": outcome(lambda: T(text, preprocessor=lambda t_: pp2(pp1(t_))).render_unicode(**CTX)),
+        }
+        for name, o in pouts.items():
+            res.count("preprocessor_paths_compared")
+            if norm_exc(o) != ref2:
+                res.violate("paths-differ-" + name, "template %r with preprocessor [append '\\n<PP1>', append '<PP2>']\npath %s gives %r\nthe preprocessed text "
+                            "compiled directly gives %r" % (text, name, o, ref2), replay_case=rc)
+        o = outcome(lambda: T(text, lexer_cls=CountingLexer).render_unicode(**CTX))
+        if norm_exc(o) != ref or len(used) != 1:
+            res.violate("paths-differ-lexer-cls", "template %r with lexer_cls=<subclass of Lexer>: %r (string path %r), subclass parse() called %d times"
+                        % (text, o, ref, len(used)), replay_case=rc)
     # source / code / defs.  A further Template for the same file that is dropped again must not take the
     # others' source away (the registry of module infos is keyed by a name they share)
     try:
